@@ -10,6 +10,9 @@ from harness import core, anngen, project
 from harness.project import call, fix
 
 
+
+RULE_EXTRA = ('a slice of the reversed peptide (interval list in descending order).')
+
 def _mass(pp, a):
     o, m = call(pp.mass, a)
     return fix(m) if o == "ret" else []
